@@ -32,7 +32,7 @@ lock = threading.Lock()
 
 
 def work(w):
-    vc = "/var/tmp/vseedpar%d" % w
+    vc = "/var/tmp/vseedpar%d_%d" % (os.getpid(), w)
     subprocess.run(["rsync", "-a", "--delete", "--exclude", ".git", "--exclude", "evidence", "--exclude", "design-spikes",
                     "--exclude", "seeded", V + "/", vc + "/"], check=True)
     os.makedirs(os.path.join(vc, "seeded"), exist_ok=True)
